@@ -429,7 +429,11 @@ class Run:
             "wall_s": round(time.time() - self.t0, 2), "violations": len(self.violations),
         }
         os.makedirs(os.path.join(VERIF, "evidence"), exist_ok=True)
-        with open(os.path.join(VERIF, "evidence", self.pid + ".json"), "w") as fh:
+        # evidence/<id>.json describes runs against /repo only; a trial against a scratch
+        # worktree (VERIF_REPO) writes next to the build output instead
+        evpath = os.path.join(VERIF, "evidence", self.pid + ".json") if REPO == "/repo" \
+            else os.path.join(BUILD, "evidence_trial_%s.json" % self.pid)
+        with open(evpath, "w") as fh:
             json.dump(ev, fh, indent=1)
 
 
